@@ -18,10 +18,12 @@ SPEC = dict(
     engines=[dict(name="loadfaults", shards=T(16, 16), timeout=T(900, 3600))],
     rule="case = (main fault, notebook fault, backup fault, retry configuration, transient-repair point); every case is non-trivial (each creates real files and drives the real loader); "
          "distinct by the tuple. Most configurations wait micro- or milliseconds; four (seven in the thorough tier) have waits "
-         "of seconds that are really slept through and add up to 12-14 s (60-100 s), one per shard.",
-    floors=T({"slept-through-configs": 4, "seconds-slept-through": 45, "permission-faults-exercised": 80, "retried": 100, "multi-wait-sequences": 30, "transient": 100, "steep-backoff-configs": 20, "returned-real": 50, "returned-fallback": 300,
+         "of seconds that are really slept through and add up to 12-14 s (60-100 s), one per shard. "
+         "In 36 loads the fault moves during the load (the main file fails for the first 1-4 attempts, then it is whole and the notebook fails); in five the notebook path names the main file itself "
+         "(same path, ./ spelling, hard link, symbolic link, copy) and the answer must be its entries twice.",
+    floors=T({"loads-whose-fault-moves-to-the-other-file": 30, "notebook-paths-that-name-the-main-file": 5, "slept-through-configs": 4, "seconds-slept-through": 45, "permission-faults-exercised": 80, "retried": 100, "multi-wait-sequences": 30, "transient": 100, "steep-backoff-configs": 20, "returned-real": 50, "returned-fallback": 300,
               "distinct_nontrivial": 600, "large-files-over-8MiB": 6, "path-spellings-through-symlink": 6, "fallback-isolation-cases": 7, "main:valid-utf16": 50, "file-modes": 30, "same-size-same-mtime-replacements": 6},
-             {"slept-through-configs": 7, "seconds-slept-through": 200, "permission-faults-exercised": 300, "retried": 400, "multi-wait-sequences": 100, "transient": 100, "steep-backoff-configs": 20, "returned-real": 150, "returned-fallback": 1000,
+             {"loads-whose-fault-moves-to-the-other-file": 30, "notebook-paths-that-name-the-main-file": 5, "slept-through-configs": 7, "seconds-slept-through": 200, "permission-faults-exercised": 300, "retried": 400, "multi-wait-sequences": 100, "transient": 100, "steep-backoff-configs": 20, "returned-real": 150, "returned-fallback": 1000,
               "distinct_nontrivial": 1800, "large-files-over-8MiB": 12, "path-spellings-through-symlink": 6, "fallback-isolation-cases": 7, "main:valid-utf16": 150, "file-modes": 30, "same-size-same-mtime-replacements": 6}),
     assumptions=["a non-positive configured number of attempts is read as one attempt (and either the real database or the fallback is accepted, never nil/error)",
                  "a dangling symlink as notebook may be read as absent or as broken",
